@@ -6,6 +6,7 @@
 #include <fcntl.h>
 #include <poll.h>
 #include <signal.h>
+#include <sched.h>
 #include <sys/wait.h>
 #include <sys/stat.h>
 #include <time.h>
@@ -58,7 +59,16 @@ static void install_signal_handlers() {
 static void write_all(int fd, const std::string &s) { size_t o = 0; while (o < s.size()) { ssize_t w = write(fd, s.data() + o, s.size() - o); if (w <= 0) break; o += (size_t)w; } }
 
 // worker: runs seeds base+idx for idx in my chunks, starting at start_idx
+static void pin_to_cpu(int k) {
+    // all threads of one simulated process share one core: a baton hand-off is then a plain context switch
+    long nc = sysconf(_SC_NPROCESSORS_ONLN);
+    if (nc <= 0) return;
+    cpu_set_t set; CPU_ZERO(&set); CPU_SET((int)(k % nc), &set);
+    sched_setaffinity(0, sizeof set, &set);
+}
+
 static void worker_main(const Args &a, int slot, long start_idx, bool skip_baseline, int wfd) {
+    pin_to_cpu(slot);
     runner_install();
     install_signal_handlers();
     GenOpts go; go.tier = a.tier; go.S = a.S; go.force_prec = a.force_prec;
@@ -133,6 +143,7 @@ J run_forked(const Case &c0, double timeout_s, const std::string &errdir, long b
     if (pid == 0) {
         close(pfd[0]);
         child_setup(pfd[1], errfile);
+        pin_to_cpu((int)(getpid() % 16));
         runner_install();
         install_signal_handlers();
         Case c = c0;
@@ -169,7 +180,7 @@ struct Agg {
     long runs = 0;
     std::map<std::string, long> ends, probes, excl, faults, by_prec, by_family, by_n, by_strategy, by_nprocs;
     std::map<std::string, VClass> classes;
-    std::unordered_set<std::string> hs, ho, hshape;
+    std::unordered_set<std::string> hs, ho, hshape, nontrivial;
     long long steps = 0, decisions = 0, switches = 0, events = 0;
     std::vector<J> samples;
     void add(const J &r) {
@@ -190,6 +201,9 @@ struct Agg {
             by_prec[s->str("prec")]++; by_family[s->str("family")]++;
             long n = (long)s->num("n"); by_n[n <= 4 ? "n<=4" : n <= 24 ? "n5-24" : n <= 60 ? "n25-60" : n <= 160 ? "n61-160" : "n>160"]++;
             if (const J *ops = s->get("ops")) if (!ops->a.empty()) {
+                // non-trivial: at least two workers, at least two columns, and at least one real scheduling decision
+                bool multi = false; for (auto &q : ops->a) if (q.num("nprocs") >= 2) multi = true;
+                if (multi && n >= 2 && r.num("decisions") > 0 && r.has("ho")) nontrivial.insert(r.str("hs") + r.str("ho"));
                 by_strategy[std::to_string(ops->a[0].num("strategy"))]++;
                 long np = (long)ops->a[0].num("nprocs"); by_nprocs[np == 1 ? "1" : np <= 4 ? "2-4" : np <= 8 ? "5-8" : "9+"]++;
             }
@@ -317,7 +331,7 @@ static int cmd_batch(const Args &a) {
        .set("workers", a.workers).set("tier", a.tier).set("wall_s", t1 - t0).set("wall_total_s", now_s() - t0).set("capped", capped)
        .set("runs_per_hour", agg.runs / std::max(1e-9, t1 - t0) * 3600.0)
        .set("ends", map_to_j(agg.ends)).set("probes", map_to_j(agg.probes)).set("excluded", map_to_j(agg.excl)).set("faults_fired", map_to_j(agg.faults))
-       .set("distinct_h_sched", (long long)agg.hs.size()).set("distinct_h_obs", (long long)agg.ho.size()).set("distinct_h_shape", (long long)agg.hshape.size())
+       .set("distinct_nontrivial", (long long)agg.nontrivial.size()).set("distinct_h_sched", (long long)agg.hs.size()).set("distinct_h_obs", (long long)agg.ho.size()).set("distinct_h_shape", (long long)agg.hshape.size())
        .set("sim_steps", J((long long)agg.steps)).set("decisions", J((long long)agg.decisions)).set("switches", J((long long)agg.switches)).set("events", J((long long)agg.events))
        .set("by_prec", map_to_j(agg.by_prec)).set("by_family", map_to_j(agg.by_family)).set("by_n", map_to_j(agg.by_n)).set("by_strategy", map_to_j(agg.by_strategy)).set("by_nprocs", map_to_j(agg.by_nprocs))
        .set("machinery_faults", (long long)machinery_faults).set("gate_failures", gate_fail).set("violations", viols);
